@@ -500,7 +500,7 @@ class Evaluator:
     def get_item(self, pctx, args=(), kwargs=None):
         f = pctx.base.formula
         if f is None:
-            raise TypeError("space has no parameters")   # modelx: AttributeError on None.signature; compared loosely
+            raise AttributeError("space has no parameters")   # (observed: modelx raises AttributeError on None.signature)
         ba = make_sig(f["params"]).bind(*args, **(kwargs or {}))
         ba.apply_defaults()
         key = tuple(ba.arguments.values())
